@@ -71,6 +71,23 @@ class SymCtx:
         self.ex.inputs_strings[name] = chars
         return symstr.mkstr(chars)
 
+    def chars(self, name, alphabets):
+        cs = []
+        for i, a in enumerate(alphabets):
+            if a is not None and len(a) == 1:
+                cs.append(ord(a))
+                continue
+            c = symstr.fresh_char("%s[%d]" % (name, i))
+            if a is not None:
+                self.ex.add(z3.Or([c == ord(x) for x in a]))
+            cs.append(c)
+        self.ex.inputs_strings = getattr(self.ex, "inputs_strings", {})
+        self.ex.inputs_strings[name] = cs
+        return symstr.mkstr(cs)
+
+    def ordinals(self, s):
+        return [SymInt(c) if symstr.is_sym(c) else c for c in symstr.lift_chars(s)]
+
     def fresh(self, name):
         return core.fresh_real(name)
 
@@ -174,6 +191,9 @@ class SymCtx:
         for sname, chars in strs.items():
             vals = []
             for c in chars:
+                if not symstr.is_sym(c):
+                    vals.append(c)
+                    continue
                 v = m.eval(c, model_completion=True)
                 vals.append(v.as_long())
                 in_str.add(c.sexpr())
